@@ -146,10 +146,12 @@ class TaskGenerator:
             inputs: TList = []
             outputs = []
             tries = 0
-            # has_enough_tries_to_reach_desired_no_of_samples and has_remaining_tries
-            while (self.max_tries - tries) + len(
-                inputs
-            ) >= samples and tries < self.max_tries:
+            # still_missing_samples and has_enough_tries_to_reach_desired_no_of_samples and has_remaining_tries
+            while (
+                len(inputs) < samples
+                and (self.max_tries - tries) + len(inputs) >= samples
+                and tries < self.max_tries
+            ):
                 tries += 1
                 new_input = self.sample_input(arguments)
                 output = self.eval_input(solution, new_input)
